@@ -416,6 +416,9 @@ def _bound_degree(old_chunks, new_chunks, degree_limit):
         return [new_chunks]
 
     nsteps = math.ceil(math.log(degree) / math.log(degree_limit))
+    # An intermediate must not outgrow the endpoints of the step it subdivides,
+    # or it would break the block-size budget the planner just established.
+    size_cap = max(_largest_block_size(old_chunks), _largest_block_size(new_chunks))
     steps = []
     prev = old_chunks
     for t in range(1, nsteps):
@@ -431,6 +434,8 @@ def _bound_degree(old_chunks, new_chunks, degree_limit):
             # coarsen the finer endpoint so the intermediate aligns with it
             intermediate.append(merge_to_number(oc if no > nn else nc, count))
         intermediate = tuple(intermediate)
+        if _largest_block_size(intermediate) > size_cap:
+            continue
         if intermediate != prev:  # drop steps that make no progress
             steps.append(intermediate)
             prev = intermediate
